@@ -22,6 +22,7 @@ import (
 	"io"
 	"io/ioutil"
 	"log"
+	"math"
 	"net"
 	"net/http"
 	"net/textproto"
@@ -383,6 +384,10 @@ func parseBlock(c *casketfile.Dispenser, u *staticUpstream, hasSrv bool) error {
 		}
 		if n < 1 {
 			return c.Err("max_fails must be at least 1")
+		}
+		if n > math.MaxInt32 {
+			// (the counter is an int32: a larger value would wrap, to a negative threshold or to a small one)
+			return c.Err("max_fails is too large")
 		}
 		u.MaxFails = int32(n)
 	case "try_duration":
